@@ -436,6 +436,11 @@ def gen_callbacks(loader, check, replay_on=True):
             run_cb("assignment_expr", f"dest={nm} prior={list(prior)}",
                    lambda it, t_, r, nm=nm, acc=acc, t=t, expl=expl: [r[0], Token("ASSIGN_OP", "="), irkit.mk_operand(it, "Variable", t, "x")],
                    exp, pn, prior, registered=lambda it, nm=nm, acc=acc, t=t, expl=expl: [mk_reg(it, nm, acc, t, expl)])
+    # writes to register aliases are never predicate writes, whatever letter the alias name starts with
+    for al in ("PC", "PKTCOUNT", "SP", "UPCYCLE", "P3"):
+        run_cb("assignment_expr", f"dest=alias {al}",
+               lambda it, t_, r: [r[0], Token("ASSIGN_OP", "="), irkit.mk_operand(it, "Variable", (False, 32), "x")], set(), None, (1,),
+               registered=lambda it, al=al: [it.call(irkit.C(loader, "Register"), [al.lower(), RA.UNKNOWN, conc_vt(loader, (False, 32))], {"is_reg_alias": True})])
     run_cb("assignment_expr", "dest=local variable",
            lambda it, t_, r: [r[0], Token("ASSIGN_OP", "="), irkit.mk_operand(it, "Variable", (True, 32), "x")], set(), None, (1,),
            registered=lambda it: [irkit.mk_var(it, "v", (True, 32))])
